@@ -1,6 +1,7 @@
 from __future__ import annotations
 
 import sys
+from typing import Optional
 
 import trio
 
@@ -27,6 +28,7 @@ class Lifespan:
         ](config.max_app_queue_size)
         self.state = state
         self.supported = True
+        self._startup_failure: Optional[str] = None
 
     async def handle_lifespan(
         self, *, task_status: trio.TaskStatus = trio.TASK_STATUS_IGNORED
@@ -80,6 +82,9 @@ class Lifespan:
                 await self.startup.wait()
         except trio.TooSlowError as error:
             raise LifespanTimeoutError("startup") from error
+        if self._startup_failure is not None:
+            # Even if the app swallowed the error raised into its send call
+            raise LifespanFailureError("startup", self._startup_failure)
 
     async def wait_for_shutdown(self) -> None:
         if not self.supported:
@@ -101,6 +106,8 @@ class Lifespan:
         elif message["type"] == "lifespan.shutdown.complete":
             self.shutdown.set()
         elif message["type"] == "lifespan.startup.failed":
+            self._startup_failure = message.get("message", "")
+            self.startup.set()
             raise LifespanFailureError("startup", message.get("message", ""))
         elif message["type"] == "lifespan.shutdown.failed":
             raise LifespanFailureError("shutdown", message.get("message", ""))
